@@ -221,6 +221,7 @@ pub fn run(tier: Tier) -> i32 {
         eprintln!("MACHINERY: vacuous exploration");
         return 2;
     }
+    super::cq::c14_into(&mut rep);
     rep.finish()
 }
 
